@@ -39,7 +39,7 @@ BigVals == {WideA(n, x) : n \in {999, 1000, 1001, 5001, 10000, 10001, 12000}, x 
 \* every pair of catalogue numbers (tolerance boundaries at +1, -1, -2, 1.75, 2^52, 1e300, the int range, zero, non-finite), bare and inside an array
 AllNums == {VNum(n) : n \in NumIds} \cup {VArr(<<VNum(n)>>) : n \in NumIds}
 Universe(cs0) == IF Tier = "quick" THEN Scal(NumsQ) \cup L1(cs0)
-                 ELSE IF Tier = "nums" THEN AllNums
+                 ELSE IF Tier = "nums" THEN AllNums ELSE IF Tier = "fold" THEN {VNull}
                  ELSE IF Tier = "big" THEN BigVals
                  ELSE Scal(NumsT) \cup L1(cs0) \cup L2(cs0)
 
@@ -51,9 +51,15 @@ Check(x, y, c) ==
   /\ Assert(impl = CompareImpl(y, x, c), <<"C12: not symmetric", x, y, c>>)
   /\ Emit => PrintT(ToJson(<<"C", JV(x), JV(y), c, sem>>))
 
+\* tier "fold": the ASCII case folding of key comparison as a byte table; the relation it induces on keys is byte-wise
+\* (KeyEq folds every byte on its own), so the driver applies it to every pair of bytes in a key position
+FoldTable == [c \in 1..255 |-> FoldB(<<c>>)[1]]
+FoldLemma == \A x \in {<<120, 91, 121>>, <<88, 123, 89>>, <<120, 64>>, <<>>} : \A y \in {<<120, 123, 121>>, <<120, 91, 89>>, <<88, 96>>, <<>>} :
+               KeyEq(x, y, FALSE) <=> (Len(x) = Len(y) /\ \A i \in DOMAIN x : FoldTable[x[i]] = FoldTable[y[i]])
+EmitFold == /\ Assert(FoldLemma, "key folding is not byte-wise") /\ (Emit => PrintT(ToJson(<<"K", FoldTable>>)))
 Next == /\ phase = 0 /\ phase' = 1 /\ UNCHANGED <<a, cs>>
         /\ b' \in (IF Tier = "nums" THEN {y \in Universe(cs) : y.t = a.t} ELSE IF Tier = "big" THEN {y \in Universe(cs) : y.t = a.t /\ Len(y.m) = Len(a.m) /\ Len(y.s) = Len(a.s)} ELSE Universe(cs))   \* wide values only against their own variants
-        /\ Check(a, b', cs)
+        /\ (IF Tier = "fold" THEN (cs => EmitFold) ELSE Check(a, b', cs))
 
 RECURSIVE HasNaN(_)
 HasNaN(v) == (v.t = "num" /\ NumClass[v.n] = "nan") \/ \E i \in DOMAIN v.m : HasNaN(v.m[i].v)
